@@ -99,6 +99,78 @@ Proof.
   - apply slot_of_some. rewrite Esl. exact Hh.
 Qed.
 
+(* what a successful unique-index step did *)
+Lemma index_step cfg m s k u id' tok s' :
+  Inv cfg m [] s ->
+  pstep cfg s (PPath (PIndex k u)) = (Ret (RObj id' tok), s') ->
+  exists x s2 r, index_rows s k u = [(id', r)] /\ get_ok cfg m k id' [] (st0 s) x s2 /\ tok = slot_of s2 x /\ tables s' = tables s2.
+Proof.
+  intros H Hstep. pose proof (Inv_st0 cfg m s H) as H0.
+  unfold pstep in Hstep. cbn [prun_op run_path] in Hstep. fold (st0 s) in Hstep.
+  unfold hold_opt in Hstep.
+  pose proof (so_index_spec cfg m k u (st0 s) H0) as F.
+  destruct (so_index cfg k u (st0 s)) as [[[x|]|e] s2]; try discriminate.
+  destruct F as (id & r & Er & G).
+  unfold hold, bind, gets, modify, ret in Hstep. cbn [fst snd] in Hstep. inversion Hstep as [[Eid Etok Es']]. clear Hstep.
+  destruct G as (G1 & G2 & G3 & G4 & G5 & G6 & G7).
+  assert (Eidd : id = id') by congruence. rewrite Eidd in G4, G7, Er.
+  exists x, s2, r. rewrite ?Eid. split; [exact Er|].
+  split; [exact (conj G1 (conj G2 (conj G3 (conj G4 (conj G5 (conj G6 G7))))))|].
+  split; reflexivity.
+Qed.
+
+Lemma index_returns_held_Inv cfg s k u o id' tok s' :
+  Inv cfg M04 [] s ->
+  held s o -> current s o -> is_row s o k id' ->
+  pstep cfg s (PPath (PIndex k u)) = (Ret (RObj id' tok), s') ->
+  tok = slot_of s o /\ tok <> None.
+Proof.
+  intros H Hh Hc (Hk & Hi) Hstep.
+  destruct (index_step cfg M04 s k u id' tok s' H Hstep) as (x & s2 & r & Er & (G1 & G2 & G3 & G4 & _) & Etok & _).
+  pose proof (Inv_st0 cfg M04 s H) as H0.
+  assert (Hrow : assoc id' (t_rows (tbl (st0 s) k)) <> None).
+  { assert (Hin : In (id', r) (index_rows s k u)) by (rewrite Er; left; reflexivity).
+    apply index_rows_In in Hin. destruct Hin as (Hin & _).
+    change (tbl (st0 s) k) with (tbl s k). rewrite (table_row cfg M04 s k id' r H Hin). discriminate. }
+  assert (R : registered s2 k id' o) by (apply (held_registered cfg M04 [] (st0 s) s2 o k id' H0 G1 G2 G3); assumption).
+  assert (x = o) by (eapply registered_fun; eauto). subst x tok.
+  destruct G2 as (Esl & _). split.
+  - apply (slot_of_slots s s2 o). exact Esl.
+  - apply slot_of_some. rewrite Esl. exact Hh.
+Qed.
+
+Theorem C04_index_returns_held_proof : C04_index_returns_held_stmt.
+Proof.
+  intros cfg pops k u o id' tok s' Hg s Hh Hc Hr Hstep.
+  pose proof (preachable_Inv cfg M04 pops (pgop_M04 pops Hg)) as H. fold s in H.
+  exact (index_returns_held_Inv cfg s k u o id' tok s' H Hh Hc Hr Hstep).
+Qed.
+
+Theorem C04_index_yields_row_proof : C04_index_yields_row_stmt.
+Proof.
+  intros cfg pops k u id' tok s' Hg s Hstep.
+  pose proof (preachable_Inv cfg M04 pops (pgop_M04 pops Hg)) as H. fold s in H.
+  destruct (index_step cfg M04 s k u id' tok s' H Hstep) as (x & s2 & r & Er & (G1 & G2 & G3 & _) & _ & Et).
+  assert (Ets : tables s' = tables s) by (rewrite Et, G3; reflexivity).
+  split; [|exact Ets]. exists r. split; [exact Er|].
+  assert (Hin : In (id', r) (index_rows s k u)) by (rewrite Er; left; reflexivity).
+  apply index_rows_In in Hin. destruct Hin as (Hin & _).
+  unfold tbl. rewrite Ets. exact (table_row cfg M04 s k id' r H Hin).
+Qed.
+
+Theorem C04_index_absent_proof : C04_index_absent_stmt.
+Proof.
+  intros cfg pops k u Hg s Er.
+  assert (E : pstep cfg s (PPath (PIndex k u)) =
+              (Raise ENotFound, with_slots (with_log (st0 s) [SSelect k]) (slots s ++ [None]))).
+  { unfold pstep. cbn [prun_op run_path]. fold (st0 s). unfold hold_opt, so_index.
+    unfold bind at 1. unfold statement. change (fault (st0 s)) with (@None nat). cbn [fst snd].
+    unfold bind at 1, gets. cbn [fst snd]. cbv beta.
+    match goal with |- context [index_rows ?x k u] => change (index_rows x k u) with (index_rows s k u) end.
+    rewrite Er. reflexivity. }
+  rewrite E. cbn. auto.
+Qed.
+
 Theorem C04_fk_deleted_not_returned_proof : C04_fk_deleted_not_returned_stmt.
 Proof.
   intros cfg pops h k' id' tok s' Hg Hnu s Hstep.
@@ -189,6 +261,11 @@ Example phist_join :
   fst (pstep cfgC (prun cfgC phist) (PPath (PJoin 0 Lazy (Some 0%nat)))) = Ret (RObjs [(1, Some 1%nat); (2, Some 2%nat)]).
 Proof. vm_compute. reflexivity. Qed.
 
+Example phist_index :
+  fst (pstep cfgC (prun cfgC phist) (PPath (PIndex Lazy 201))) = Ret (RObj 2 (Some 2%nat)) /\
+  fst (pstep cfgC (prun cfgC phist) (PPath (PIndex Lazy 7))) = Raise ENotFound.
+Proof. vm_compute. auto. Qed.
+
 (* also after the paths themselves ran (each get ticks the cull counter) and with the cache off *)
 Example phist_again :
   let s := prun cfgC (phist ++ [PPath (PFk 1 Eager); PPath (PJoin 0 Lazy None); PBase (OCull Eager); PBase (OCull Lazy)]) in
@@ -203,6 +280,9 @@ Example phist_nocache :
 Proof. vm_compute. split; reflexivity. Qed.
 
 Print Assumptions C04_paths_unique_proof.
+Print Assumptions C04_index_returns_held_proof.
+Print Assumptions C04_index_yields_row_proof.
+Print Assumptions C04_index_absent_proof.
 Print Assumptions C04_paths_get_returns_held_proof.
 Print Assumptions C04_fk_returns_held_proof.
 Print Assumptions C04_join_returns_held_proof.
